@@ -183,6 +183,36 @@ CHECKS = {
              '(thorough 3) + close, <= 2 files per call.',
         technique='symbolic execution of LLVM IR to SMT (z3) with symbolic fault schedules + fault-injection replay on the real build',
         design_ref='DESIGN.md section 4 C10'),
+    'C17': dict(
+        level='model_checking',
+        text='CrossHair (per-path z3 queries) on the real mirror_to_dest with copy, move and the real LinkWithFallback on an in-memory file system '
+             'whose existence bits and content identities are symbolic (source possibly vanished, older/identical/different destination, stale '
+             'tmp file, 1..3 duplicated or late events): Confirmed over all paths that the destination ends with the source content, the '
+             'final name is only ever written by rename from the tmp. name, an intact copy exists in source or destination at every logged '
+             'moment (move = copy then unlink), and a vanished source changes nothing. The handler set built by the real DigitalRFMirror.__init__ '
+             'is checked per method (what is copied, what is moved, the count-1 metadata ringbuffer dispatched after the copying handler).',
+        note='Trusted: CrossHair/z3, the in-memory file system model of os/shutil/filecmp; event selection is C15, deletion rule is C16.',
+        technique='CrossHair symbolic execution of the real mirror code over a symbolic file system model',
+        design_ref='DESIGN.md section 4 C17'),
+    'C18': dict(
+        level='model_checking',
+        text='CrossHair on the real _run_cp / _run_mv / _run_ln / _parse_srcdest_args with an in-memory file system and a stub listing: for every '
+             'form of the channel option and every subset of two listed files, exactly the listed files arrive at the same relative path with '
+             'the same content (or as hard / symbolic links), directories are created as needed, cp/ln leave the source unchanged, mv removes '
+             'exactly what it transferred, nothing else appears, and the listing is called with the same selection options.',
+        note='Trusted: CrossHair/z3, the file system model. Which files a listing selects is C14; identical bytes read identically (C01).',
+        technique='CrossHair symbolic execution of the real command loops over a file system model',
+        design_ref='DESIGN.md section 4 C18'),
+    'C20': dict(
+        level='model_checking',
+        text='CrossHair on the real metadata writer / reader and RF reader over in-memory h5py / os stand-ins that log opens, closes and mutating '
+             'calls: when write() returns every file it opened is closed and every group exists; a reader created before a write and one created '
+             'after both report the new sample at once (bounds, range read, read_latest; no cached state); constructing a metadata reader, '
+             'reading metadata, RF reads, bounds and get_digital_metadata mutate nothing on a valid tree (the only deleting branches are shown '
+             'to require an unreadable old file, or the documented accept_empty=False mode). A real tree is hashed before and after queries.',
+        note='Trusted: CrossHair/z3, the stand-ins. Interleavings are at call granularity as the property states.',
+        technique='CrossHair symbolic execution of the real Python functions with logging I/O stand-ins',
+        design_ref='DESIGN.md section 4 C20'),
 }
 
 NOT_YET = 'check not built yet in this revision of /verif (planned, see DESIGN.md section 4)'
